@@ -7,6 +7,7 @@ import KyupyVerif.Drv.Traverse
 import KyupyVerif.Drv.CircObj
 import KyupyVerif.Drv.Netlist
 import KyupyVerif.Drv.Transform
+import KyupyVerif.Drv.WaveStrip
 /-! Stateless driver extensions: each module `KyupyVerif/Drv/<Name>.lean` defines
 `handle : String → List String → Option String` (command word, remaining tokens → answer, or `none`
 when the command is not its own) and is listed in `extHandlers` below. -/
@@ -21,7 +22,8 @@ def extHandlers : List (String → List String → Option String) := [
   KV.Drv.Traverse.handle,
   KV.Drv.CircObj.handle,
   KV.Drv.Netlist.handle,
-  KV.Drv.Transform.handle
+  KV.Drv.Transform.handle,
+  KV.Drv.WaveStrip.handle
 ]
 
 def tryExt (cmd : String) (args : List String) : Option String :=
